@@ -102,6 +102,29 @@ def run(ctx):
                     judge(ctx, t, mode, to_text(t, mode), "exh%d" % n)
                 ctx.cls("exhaustive_n%d" % n)
     ctx.count("exhaustive_complete")
+    # unary operators in front of every literal spelling class, including spellings outside
+    # the ABNF that a lexer built on \d might accept (if the parser produces the tree, the
+    # trip must preserve it; if it rejects the text, there is nothing to judge)
+    spell = [T.lit("int", x) for x in ("5", "+5", "-5", "007", "\uff15", "\u0663", "1\uff12")] + \
+            [T.lit("float", x) for x in ("1.5", "+1.5", ".5e1", "1e3", "\uff11.5", "1.\uff15")] + \
+            [T.lit("date", "2020-01-01"), T.lit("duration", "P1D"), T.lit("duration", "-P1D"),
+             T.lit("time", "10:00:00"), T.lit("guid", "6c0e37e3-e856-45ee-bd58-484b11882c67"),
+             T.S("-1"), T.lit("null", "null"), T.lit("bool", "true"), T.ident("e1"), T.ident("x", ("ns",))]
+    j = 0
+    for lit in spell:
+        for wrap in (lambda x: ("un", "neg", x), lambda x: ("un", "neg", ("un", "neg", x)),
+                     lambda x: ("un", "not", ("un", "neg", x)),
+                     lambda x: ("bin", "sub", T.ident("a"), ("un", "neg", x)),
+                     lambda x: ("cmp", "eq", T.ident("qty"), ("un", "neg", x)),
+                     lambda x: T.lst(("un", "neg", x), x),
+                     lambda x: T.call("my.f", ("un", "neg", x))):
+            j += 1
+            if not ctx.mine(j):
+                continue
+            t = wrap(lit)
+            ctx.cls("unary-before-literal")
+            for mode in ("min", "full"):
+                judge(ctx, t, mode, to_text(t, mode), "unary-literal")
     rng = ctx.rng("rand")
     o = fullgen.Opts()
     maxd = ctx.pick(7, 10)
